@@ -142,7 +142,7 @@ extra3 = {
 }
 # round 13 (second half) and round 14
 extra4 = {
- "C02": " Created tables whose extension is written in upper / mixed case; fixed-length files whose positions are found automatically, and fixed-length files whose columns are added, dropped and renamed (the committed file must read back as the table the altering process saw).",
+ "C02": " Created tables whose extension is written in upper / mixed case; fixed-length files whose positions are found automatically, and fixed-length files whose columns are added, dropped and renamed (the committed file must read back as the table the altering process saw); column names holding line breaks, delimiters and quotes, and column names that are paths into one JSON object (refused or read back alike); a table read through --json-query and updated (known finding).",
  "C03": " LATERAL joins over a left side without records (fields of both sides, aggregates, as the padded side of an outer join).",
  "C08": " A table read before under import attributes of its own; nine table layouts (fixed-length with found / given / single-line positions, TSV, CRLF CSV, semicolon CSV, LTSV, JSON, JSON Lines) x seventeen failing statements, each transaction compared byte by byte with a control transaction that never ran the failing statement.",
  "C10": " Write-protected tables; tables with a second hard link.",
@@ -150,6 +150,9 @@ extra4 = {
  "C12": " Partition keys that are one value object in neighbouring records; prepared statements whose placeholders are evaluated by parallel workers.",
  "C13": " Prepared statements whose placeholders are evaluated by parallel workers.",
  "C19": " A step watchdog of one minute per program / loader input names the program that never ends; after four hangs a run stops restarting hung workers.",
+ "C20": " At every fifth gap B arrives first and is slow: it holds the table for update (0.4 s between its change and its COMMIT) at the moment A's statement starts.",
+ "C04": " Instants outside 1678..2262 (two of them 2^64 nanoseconds apart); the texts of a session's datetime format are bucketed once before the format is set.",
+ "C07": " Instants outside 1678..2262 as sort keys.",
 }
 for k, add in extra4.items():
     extra3[k] = extra3.get(k, "") + add
